@@ -37,18 +37,20 @@ theorem chain_tables_agree :
 /-! ## 2. the automaton selects what the tree-shaped reference selects -/
 
 /-- **Main theorem (selection).**  For every source tree `t` (any nesting of `#if/#ifdef/#ifndef` groups
-    with `#elif`/`#else`), every initial macro table and every condition evaluator `cv` for which the
-    `#elif` conditions of `t` are well-formed: running the stack automaton over the lines of `t` accepts
-    iff the reference does, ends with an empty stack, and produces exactly the reference's output text
-    and macro table — in particular `#define/#undef/#include/#pragma`/unknown directives inside
-    unselected groups have no effect, and a rejected selected line is rejected with the same reason. -/
-theorem automaton_refines_tree (cv : Macros → List CTok → Except CondErr Bool) (t : Items)
-    (hwf : ItemsElifTotal cv t) (m : Macros) :
+    with `#elif`/`#else`), every condition evaluator `cv`, every invariant `Inv` of the macro table that
+    the `#define/#undef` lines of `t` preserve and under which the `#elif` conditions of `t` are
+    well-formed, and every initial macro table satisfying `Inv`: running the stack automaton over the
+    lines of `t` accepts iff the reference does, ends with an empty stack, and produces exactly the
+    reference's output text and macro table — in particular `#define/#undef/#include/#pragma`/unknown
+    directives inside unselected groups have no effect, and a rejected selected line is rejected with the
+    same reason. -/
+theorem automaton_refines_tree (Inv : Macros → Prop) (cv : Macros → List CTok → Except CondErr Bool)
+    (t : Items) (hwf : ItemsWF Inv cv t) (m : Macros) (hm : Inv m) :
     runFile cv m (flattenItems t) =
       match t.sel cv true (m, []) with
       | .ok s' => .ok ⟨[], s'.1, s'.2⟩
       | .error e => .error (toErr e) := by
-  have h := Items.refines cv t hwf [] m [] []
+  have h := Items.refines Inv cv t hwf [] m [] [] hm
   simp only [List.append_nil, active_nil] at h
   unfold runFile
   rw [h]
@@ -56,13 +58,14 @@ theorem automaton_refines_tree (cv : Macros → List CTok → Except CondErr Boo
 
 /-- The same statement from the middle of a file: from any stack `ch`, the lines of `t` leave the stack
     unchanged and have the reference effect for "enclosing group processed = `active ch`". -/
-theorem automaton_refines_tree_any_stack (cv : Macros → List CTok → Except CondErr Bool) (t : Items)
-    (hwf : ItemsElifTotal cv t) (ch : List CS) (m : Macros) (out : Out) :
+theorem automaton_refines_tree_any_stack (Inv : Macros → Prop)
+    (cv : Macros → List CTok → Except CondErr Bool) (t : Items)
+    (hwf : ItemsWF Inv cv t) (ch : List CS) (m : Macros) (hm : Inv m) (out : Out) :
     run cv ⟨ch, m, out⟩ (flattenItems t) =
       match t.sel cv (active ch) (m, out) with
       | .ok s' => .ok ⟨ch, s'.1, s'.2⟩
       | .error e => .error (toErr e) := by
-  have h := Items.refines cv t hwf ch m out []
+  have h := Items.refines Inv cv t hwf ch m out [] hm
   simp only [List.append_nil] at h
   rw [h]
   cases t.sel cv (active ch) (m, out) <;> simp [andThen, run]
@@ -82,12 +85,12 @@ example :
                          (.els (.cons (.plain (.text [.Id "l3"])) .nil))) .nil)
                 (.els (.cons (.plain (.text [.Id "l4"])) .nil))))
       (.cons (.cond (.ifdef "N") (.cons (.plain (.text [.Id "l5", .Id "N"])) .nil) .endif) .nil)
-    ItemsElifTotal condValue t ∧
+    ItemsWF (fun _ => True) condValue t ∧
     (runFile condValue [] (flattenItems t)).toOption.map (·.out) =
       some [[.Id "l2"], [.Id "l5", .LiteralInt 1]] := by
   refine ⟨?_, by decide⟩
-  simp only [ItemsElifTotal, ItemElifTotal, ChainElifTotal, and_true, true_and]
-  intro m
+  simp only [ItemsWF, ItemWF, ChainWF, and_true, true_and, implies_true]
+  intro m _
   exact ⟨true, rfl⟩
 
 /-- Lines inside a group that is not being processed have no effect, whatever they are: `#define`,
@@ -246,11 +249,70 @@ example :
     decide
 
 /-- A condition without macro operands is well-formed in every macro table; in particular the
-    hypothesis `ItemsElifTotal condValue` of `automaton_refines_tree` holds for every tree whose `#elif`
-    conditions are printed trees over literals, `defined`, `!` and the binary operators. -/
+    well-formedness hypothesis of `automaton_refines_tree` holds with the trivial invariant for every tree
+    whose `#elif` conditions are printed trees over literals, `defined`, `!` and the binary operators. -/
 theorem total_of_no_operands (e : Expr) (h1 : e.operandNames = []) (h2 : ∀ x ∈ e.names, x ≠ "defined") :
     Total condValue (print 4 e) := by
-  intro m
+  intro m _
   exact ⟨_, cond_parse_eval m e ⟨by simp [h1], h2⟩⟩
+
+/-- the invariant under which conditions with macro operands are well-formed: every macro body is one
+    literal (it is preserved by every `#define NAME <literal>` and every `#undef`) -/
+def LiteralMacros (m : Macros) : Prop :=
+  ∀ x body, Env.lookup m x = some body → ∃ v, tokValue body = some v
+
+/-- Under `LiteralMacros`, every printed condition tree that does not use the name `defined` as an
+    identifier has a value — and by `cond_parse_eval` it is the reference value.  This discharges the
+    `#elif` hypothesis of `automaton_refines_tree` (with `Inv := LiteralMacros`) for conditions that use
+    macros as operands. -/
+theorem total_under_literal_macros (e : Expr) (h2 : ∀ x ∈ e.names, x ≠ "defined") :
+    TotalOn LiteralMacros condValue (print 4 e) := by
+  intro m hm
+  refine ⟨_, cond_parse_eval m e ⟨?_, h2⟩⟩
+  intro x _
+  cases hl : Env.lookup m x with
+  | none => exact Or.inl rfl
+  | some body =>
+    obtain ⟨v, hv⟩ := hm x body hl
+    exact Or.inr ⟨body, v, rfl, hv⟩
+
+/-- the two facts that make `LiteralMacros` usable as the invariant of `automaton_refines_tree` -/
+theorem literalMacros_define (m : Macros) (n : String) (body : List CTok) (v : UInt64)
+    (hb : tokValue body = some v) (hm : LiteralMacros m) : LiteralMacros (Macros.define m n body) := by
+  intro x bd hl
+  rw [define_eq, Env.define, lookup_append_single, lookup_filter] at hl
+  by_cases hx : x = n
+  · simp only [hx, if_true] at hl
+    simp at hl; subst hl; exact ⟨v, hb⟩
+  · simp only [hx, if_false] at hl
+    cases h : Env.lookup m x with
+    | none => simp [h, Ne.symm hx] at hl
+    | some b' => simp [h] at hl; subst hl; exact hm x _ h
+
+theorem literalMacros_undef (m : Macros) (n : String) (hm : LiteralMacros m) :
+    LiteralMacros (Macros.undef m n) := by
+  intro x bd hl
+  rw [undef_eq, Env.undef, lookup_filter] at hl
+  by_cases hx : x = n
+  · simp [hx] at hl
+  · simp only [hx, if_false] at hl; exact hm x bd hl
+
+theorem literalMacros_nil : LiteralMacros [] := by
+  intro x bd hl; simp [Env.lookup] at hl
+
+/-- Non-vacuity of the invariant form: a file that defines `A` and then tests `A == 5` in an `#elif`
+    satisfies the hypotheses of `automaton_refines_tree` with `Inv := LiteralMacros`. -/
+example :
+    let t : Items :=
+      .cons (.plain (.define "A" [.LiteralInt 5]))
+        (.cons (.cond (.ifc [.LiteralInt 0]) .nil
+                 (.elif (print 4 (.bin .eq (.name "A") (.lit 5 false)))
+                    (.cons (.plain (.text [.Id "x"])) .nil) .endif)) .nil)
+    ItemsWF LiteralMacros condValue t ∧ LiteralMacros [] ∧
+    (runFile condValue [] (flattenItems t)).toOption.map (·.out) = some [[.Id "x"]] := by
+  refine ⟨?_, literalMacros_nil, by decide⟩
+  simp only [ItemsWF, ItemWF, ChainWF, and_true, true_and]
+  exact ⟨fun m hm => literalMacros_define m "A" _ 5 rfl hm,
+         total_under_literal_macros _ (by decide)⟩
 
 end RsslVerif.Thm.C11
